@@ -90,6 +90,30 @@ def special():
     for i, s in enumerate(more):
         out.append((f"m{i}", X + s, xs))
         out.append((f"mo{i}", s, None))
+    # loop followed by transforms that need further sub-queries (the recursive CTE is then not the last one)
+    loops = ["from x | select {a} | loop (filter a < 10 | select {a = a + 1})", "from x | select {k, a} | loop (filter a < 3 | select {k, a = a + 1})"]
+    posts = ["take 5 | filter a > 1", "sort a | take 3 | derive {r = rank a}", "aggregate {n = count this} | derive {m = n + 1}", "join y (==a) | take 2 | filter x.a > 0",
+             "group a (take 1) | sort a", "derive {r = row_number this} | filter r > 1", "take 2 | append (from y | select {a}) | take 1"]
+    n = 0
+    for lp in loops:
+        for po in posts:
+            if "join y (==a)" in po and "{k, a}" in lp:
+                po = po.replace("x.a", "k")
+            out.append((f"lp{n}", X + lp + " | " + po, xs)); n += 1
+    # group (take n) -> DISTINCT ON / ROW_NUMBER: split before the group x key x sort inside or not x key kept or dropped afterwards
+    pres = ["select {k, a, b}", "select {k, a, b} | take 10", "filter a > 0 | take 10", "derive {w = sum b} | select {k, a, w}", "sort b | take 10"]
+    keys = ["k", "{k, a}", "a"]
+    inners = ["take 1", "sort b | take 1", "sort {-a} | take 2", "take 2..3"]
+    outs = ["", "select {a}", "select !{k}", "aggregate {n = count this}", "select {a} | take 2", "derive {z = a + 1} | select {z}"]
+    n = 0
+    for pre in pres:
+        for ky in keys:
+            for inn in inners:
+                for o in outs:
+                    if "b" in inn and "w}" in pre:
+                        continue
+                    src = f"from x | {pre} | group {ky} ({inn})" + (f" | {o}" if o else "")
+                    out.append((f"do{n}", X + src, xs)); n += 1
     # user aliases / tables that look like generated names
     gn = [
         "from table_0 = x | join (from y | take 3) (==k)", "from x | join table_0 = y (==k) | take 3 | filter x.a > 1 | join (from y | take 2) (==k)",
